@@ -186,6 +186,10 @@ def oracle(R, alg, spec, items, exact, extra=True, report=True):
                 return viol('rdiv', f'c/x = {obs(c / x)} but c*x.inv() = {obs(c * xi)}')
             if not same(x / x, x * xi, ex):
                 return viol('div', f'x/x = {obs(x / x)} but x*x.inv() = {obs(x * xi)}')
+            # division by plain python numbers (often the first use of that pattern on the algebra): x / 3 = x * (1/3)
+            q3, q5 = x / 3, x / 5.0
+            if not same(q3 * 3, x, ex and all(is_exact(v) for v in q3.values())) or not same(q5 * 5.0, x, False):
+                return viol('div-number', f'x/3 = {obs(q3)}, x/5.0 = {obs(q5)} for x = {obs(x)}')
             if not same(x ** -1, xi, ex) or not same(x ** -2, xi * xi, ex):
                 return viol('pow-negative', f'x**-2 = {obs(x ** -2)} but x.inv()*x.inv() = {obs(xi * xi)}')
             if not same((x ** -2) * x * x, {0: 1}, ex):
